@@ -51,6 +51,9 @@ Why(ev) ==
                                ~(o.spell[i].backs[j].ok /\ EntityFromWire(o.spell[i].backs[j].v) = d) }
             IN (IF badSpec = {} THEN <<>> ELSE <<"the spelling is not the entity per the specification (harness): " \o o.spell[CHOOSE i \in badSpec : TRUE].name>>)
                \o (IF badReal = {} THEN <<>> ELSE <<"schema-guided decoding of the " \o o.spell[CHOOSE i \in badReal : TRUE].name \o " spelling">>)
+               \* the byte-level respelling of a document is the same document
+               \o (IF "escdiffers" \in DOMAIN o /\ o.escdiffers # <<>>
+                   THEN <<"schema-guided decoding of the \\u-escaped bytes of the " \o o.escdiffers[1] \o " spelling differs from the plain bytes">> ELSE <<>>)
 
 Init == l = 1 /\ bad = <<>>
 Next == /\ l <= Len(Trace)
